@@ -72,7 +72,15 @@ type L2Params struct {
 	ArtifactType  bool   `json:"artifact_type,omitempty"`  // referrer list filtered by artifactType
 	RepoLimit     int    `json:"repo_limit,omitempty"`
 	Last          string `json:"last,omitempty"` // WithTagLast / WithRepoLast
+	// blob get / head of a foreign layer: the descriptor carries URLs, registry and mirrors lack the blob
+	ExtURLs  int        `json:"ext_urls,omitempty"`  // number of URLs in the descriptor (0 = ordinary blob)
+	ExtDead  string     `json:"ext_dead,omitempty"`  // with 2 URLs the first one is dead: 404 (file gone) | nohost (name does not resolve)
+	ExtHosts []HostSpec `json:"ext_hosts,omitempty"` // fault words of the external hosts (only Word / Tail are used)
 }
+
+func extName(i int) string { return fmt.Sprintf("ext%d.example.test", i+1) }
+
+const extPath = "/layers/foreign.bin"
 
 // (ordered so that rapid's preference for early elements favours the operations with many requests)
 var l2Ops = []string{
@@ -135,6 +143,7 @@ func fallbackIndex(refs [][]byte) []byte {
 // content is everything an L2 world is populated with.
 type content struct {
 	cfg, cfg2, layer1, layer2, empty, newBlob []byte
+	foreign                                   []byte // served by external hosts only
 	m1, m2, idx, mOld, mNew                   []byte
 	refs                                      [][]byte
 	rootDig                                   string // what tag v1 points at
@@ -143,6 +152,7 @@ type content struct {
 
 func makeContent(p L2Params) *content {
 	ct := &content{cfg: []byte(cfgJSON), cfg2: []byte(cfg2JSON), layer1: detBytes(p.Size, 2), layer2: detBytes(17, 3), empty: []byte("{}"), newBlob: detBytes(p.Size, 9)}
+	ct.foreign = detBytes(max(p.Size, 1), 11)
 	ct.m1 = imageManifest(ct.cfg, [][]byte{ct.layer1, ct.layer2}, "m1")
 	ct.m2 = imageManifest(ct.cfg2, [][]byte{ct.layer2}, "m2")
 	ct.idx = indexManifest([][]byte{ct.m1, ct.m2}, []string{"amd64", "arm64"})
@@ -258,6 +268,24 @@ func setupL2(c Case, withFaults bool) *l2env {
 			f.CatalogPage = 1
 		}
 	}
+	for i := 0; i < p.ExtURLs; i++ {
+		if i == 0 && p.ExtURLs > 1 && p.ExtDead == "nohost" {
+			continue
+		}
+		n := extName(i)
+		h := w.m.AddExternal(n)
+		w.host[n] = h
+		w.extNames = append(w.extNames, n)
+		if i < len(p.ExtHosts) {
+			w.extSpec[n] = p.ExtHosts[i]
+		} else {
+			w.extSpec[n] = HostSpec{}
+		}
+		if !(i == 0 && p.ExtURLs > 1 && p.ExtDead == "404") {
+			h.Files[extPath] = ct.foreign
+		}
+	}
+	w.blobLen["ext:"+extPath] = len(ct.foreign)
 	w.blobLen[rm.Digest("sha512", ct.layer1)] = len(ct.layer1)
 	w.blobLen[rm.Digest("sha512", ct.newBlob)] = len(ct.newBlob)
 	// a second registry without mirrors for cross-registry copies
@@ -412,6 +440,12 @@ func (e *l2env) runOp(c Case) (res l2Result) {
 	l1desc := desc(rm.MTOCILayer, ct.layer1)
 	if p.Sha512 {
 		l1desc.Digest = digest.Digest(rm.Digest("sha512", ct.layer1))
+	}
+	if p.ExtURLs > 0 {
+		l1desc = desc(rm.MTDockerForeig, ct.foreign)
+		for i := 0; i < p.ExtURLs; i++ {
+			l1desc.URLs = append(l1desc.URLs, "https://"+extName(i)+extPath)
+		}
 	}
 	defer func() {
 		// a crash of the operation (as opposed to one of the harness) gets the operation's name
@@ -590,7 +624,9 @@ func sentIgnoreErr(e *rm.Entry) bool {
 	return false
 }
 
-func sequentialOp(op string) bool { return op != "image-copy" }
+// blob-copy streams: the upload PUT/PATCH is released first and the model logs it only after it has
+// read the request body, during which the source GET may be resumed - log order is not release order.
+func sequentialOp(op string) bool { return op != "image-copy" && op != "blob-copy" }
 
 var l2BackoffClasses = map[string]bool{"blob-get": true, "blob-head": true, "manifest-get": true, "manifest-head": true, "manifest-put": true}
 
@@ -666,7 +702,8 @@ func runL2(c Case, ev *evid.Collector) (vs []*evid.Violation, inconclusive strin
 			}
 		case "lack-injected":
 			contin := strings.Contains(e.RawQuery, "page=") || strings.Contains(e.RawQuery, "last=")
-			if e.Host == upName || e.Host == othName || e.Status == 416 || contin || c.Up.NoHead {
+			_, configured := w.spec[e.Host]
+			if e.Host == upName || !configured || e.Status == 416 || contin || c.Up.NoHead {
 				// (also: the continuation of a paged list is bound to the host that served the previous page,
 				// and a registry that takes no HEAD cannot stand in for a mirror that "lacks" the object)
 				// a 416 on a read without Range is "this host lacks it" for the walk, but when every host
@@ -750,6 +787,21 @@ func runL2(c Case, ev *evid.Collector) (vs []*evid.Violation, inconclusive strin
 		v6 = b.w.checkWrites(esB, writeHost)
 	}
 	add(v6)
+	// ---- (1) for the fall-back to a descriptor's URLs: BlobGet / BlobHead send exactly one logical
+	// request per URL, so the requests one external URL receives are its attempts
+	if c.P.ExtURLs > 0 && (c.Op == "blob-get" || c.Op == "blob-head") {
+		for _, n := range w.extNames {
+			cnt := 0
+			for _, e := range es {
+				if e.Host == n {
+					cnt++
+				}
+			}
+			if cnt > c.Limit+1 {
+				add(evid.V("attempts-exceed-retry-limit", "%s: the external URL on %s was requested %d times with retry limit %d (at most %d attempts per logical request)\n%s", c.Op, short(n), cnt, c.Limit, c.Limit+1, dumpLog(es)))
+			}
+		}
+	}
 	// ---- (4) + (5) on sequential operations
 	if sequentialOp(c.Op) {
 		lo := logOpts{sequential: true, groups: w.l2Groups(es),
